@@ -91,6 +91,22 @@ def sweep(tier: str) -> Sweep:
             sw.check(False, "comparison raised", case, want, f"{type(e).__name__}: {e}")
             continue
         sw.check(got == want and ops == -want, "ordered differently from the reference", case, want, got)
+    # local labels: every separator spelling, numeric vs alphanumeric parts - all ordered pairs against the reference
+    labels = ["abc.1", "abc-1", "abc_1", "1.2", "1_2", "1-2", "1.10", "1_10", "1-10", "abc", "1.abc", "1_abc", "a.b.c", "a_b-c", "ubuntu_1", "ubuntu.1", "ubuntu-1.2", "ubuntu_1_2", "1", "2", "10", "0"]
+    loc = [(b + "+" + l) for b in ("1.0", "1!2.3.4rc1") for l in labels]
+    objs = [(s_, fm_parse(s_), ref_parse(s_)) for s_ in loc]
+    for (sa, fa, ra), (sb, fb, rb) in itertools.product(objs, objs):
+        case = {"a": sa, "b": sb, "clause": "order-local"}
+        sw.note(["order-local", sa, sb], "local")
+        if fa is None or fb is None or ra is None or rb is None:
+            sw.check((fa is None) == (ra is None) and (fb is None) == (rb is None), "acceptance of a local label differs from the reference", case, None, None)
+            continue
+        want = sign((ra > rb) - (ra < rb))
+        try:
+            got = sign(fa.compare(fb))
+            sw.check(got == want and (fa == fb) == (want == 0) and (want != 0 or hash(fa) == hash(fb)), "local labels ordered / hashed differently from the reference", case, want, got)
+        except Exception as e:  # noqa: BLE001
+            sw.check(False, "comparison raised", case, want, f"{type(e).__name__}: {e}")
     return sw
 
 
